@@ -21,6 +21,7 @@ import (
 	"go/ast"
 	"go/token"
 	"go/types"
+	"strings"
 )
 
 type affine struct {
@@ -392,4 +393,171 @@ func c17LineCounter(p *Prog, r *Report) {
 	if !okEOF {
 		r.Expect("eof", false, "increment of the counter for a last line without line break")
 	}
+}
+
+// c17Output: what reaches the caller.  The ranges are collected in one string
+// accumulator that is printed once after the loops: every formatted range must
+// be APPENDED to that accumulator (a plain assignment keeps only the last
+// range), and the accumulator printed is the one appended to.  The -size
+// answer prints the line count when there are fewer lines than nodes and the
+// node count otherwise.
+func c17Output(p *Prog, r *Report) {
+	r.Rule("C17.R8", "what is printed: every formatted range is appended to one string accumulator (declared empty) and that accumulator is printed after the loops; the -size answer prints the number of lines on the arm 'fewer lines than nodes' and the number of nodes on the other arm, through the same decision as the -list block", 6)
+	fi := p.Funcs["calcHermesBatch.main"]
+	if fi == nil {
+		r.Ob("main", "-", false, "calcHermesBatch.main not found")
+		return
+	}
+	info := fi.Pkg.TypesInfo
+	isSprintf := func(e ast.Expr) bool {
+		call, ok := e.(*ast.CallExpr)
+		if !ok {
+			return false
+		}
+		f := callee(info, call)
+		return f != nil && f.Pkg() != nil && f.Pkg().Path() == "fmt" && f.Name() == "Sprintf"
+	}
+	var acc types.Object
+	nApp := 0
+	ast.Inspect(fi.Decl.Body, func(n ast.Node) bool {
+		as, ok := n.(*ast.AssignStmt)
+		if !ok || len(as.Lhs) != 1 || len(as.Rhs) != 1 {
+			return true
+		}
+		lid, ok := as.Lhs[0].(*ast.Ident)
+		if !ok {
+			return true
+		}
+		has := false
+		ast.Inspect(as.Rhs[0], func(m ast.Node) bool {
+			if e, ok := m.(ast.Expr); ok && isSprintf(e) {
+				has = true
+			}
+			return true
+		})
+		if !has {
+			return true
+		}
+		nApp++
+		obj := info.Uses[lid]
+		appended := false
+		switch as.Tok {
+		case token.ADD_ASSIGN:
+			appended = isSprintf(as.Rhs[0])
+		case token.ASSIGN:
+			// acc = acc + Sprintf(...)
+			if be, ok := as.Rhs[0].(*ast.BinaryExpr); ok && be.Op == token.ADD {
+				if x, ok := be.X.(*ast.Ident); ok && info.Uses[x] == obj && isSprintf(be.Y) {
+					appended = true
+				}
+			}
+		}
+		same := acc == nil || acc == obj
+		if acc == nil {
+			acc = obj
+		}
+		r.Ob("appended", p.Pos(as.Pos()), appended && same && obj != nil, fmt.Sprintf("formatted range %s %s %s: appended to the accumulator: %v, same accumulator as the other ranges: %v (a plain assignment keeps only the last range)", lid.Name, as.Tok, clip(types.ExprString(as.Rhs[0]), 60), appended, same))
+		return true
+	})
+	if nApp < 4 {
+		r.Ob("appended", p.Pos(fi.Decl.Pos()), false, fmt.Sprintf("%d formatted ranges are stored, 4 confirmed (two per arm)", nApp))
+	}
+	// the accumulator starts empty and is what is printed
+	if acc != nil {
+		empty := false
+		ast.Inspect(fi.Decl.Body, func(n ast.Node) bool {
+			if ds, ok := n.(*ast.DeclStmt); ok {
+				if gd, ok := ds.Decl.(*ast.GenDecl); ok {
+					for _, sp := range gd.Specs {
+						if vs, ok := sp.(*ast.ValueSpec); ok {
+							for i, nm := range vs.Names {
+								if info.Defs[nm] == acc {
+									if len(vs.Values) == 0 {
+										empty = true
+									} else if bl, ok := vs.Values[i].(*ast.BasicLit); ok && bl.Value == `""` {
+										empty = true
+									}
+								}
+							}
+						}
+					}
+				}
+			}
+			if as, ok := n.(*ast.AssignStmt); ok && as.Tok == token.DEFINE {
+				for i, l := range as.Lhs {
+					if id, ok := l.(*ast.Ident); ok && info.Defs[id] == acc && i < len(as.Rhs) {
+						if bl, ok := as.Rhs[i].(*ast.BasicLit); ok && bl.Value == `""` {
+							empty = true
+						}
+					}
+				}
+			}
+			return true
+		})
+		printed := false
+		ast.Inspect(fi.Decl.Body, func(n ast.Node) bool {
+			call, ok := n.(*ast.CallExpr)
+			if !ok || len(call.Args) != 1 {
+				return true
+			}
+			f := callee(info, call)
+			if f == nil || f.Pkg() == nil || f.Pkg().Path() != "fmt" || !strings.HasPrefix(f.Name(), "Print") {
+				return true
+			}
+			if id, ok := call.Args[0].(*ast.Ident); ok && info.Uses[id] == acc {
+				printed = true
+			}
+			return true
+		})
+		r.Ob("accumulator", p.Pos(fi.Decl.Pos()), empty && printed, fmt.Sprintf("the accumulator starts empty: %v; it is the value printed: %v", empty, printed))
+	}
+	// -size: if lines/nodes == 0 { Print(lines) } else { Print(nodes) }
+	okSize := false
+	det := "the -size decision (if lines/nodes == 0 … else …) with one print per arm was not found"
+	ast.Inspect(fi.Decl.Body, func(n ast.Node) bool {
+		ifs, ok := n.(*ast.IfStmt)
+		if !ok || ifs.Else == nil {
+			return true
+		}
+		be, ok := ifs.Cond.(*ast.BinaryExpr)
+		if !ok || be.Op != token.EQL {
+			return true
+		}
+		q, ok := be.X.(*ast.BinaryExpr)
+		if !ok || q.Op != token.QUO {
+			return true
+		}
+		if bl, ok := be.Y.(*ast.BasicLit); !ok || bl.Value != "0" {
+			return true
+		}
+		printsOnly := func(b ast.Stmt) (string, bool) {
+			blk, ok := b.(*ast.BlockStmt)
+			if !ok || len(blk.List) != 1 {
+				return "", false
+			}
+			es, ok := blk.List[0].(*ast.ExprStmt)
+			if !ok {
+				return "", false
+			}
+			call, ok := es.X.(*ast.CallExpr)
+			if !ok || len(call.Args) != 1 {
+				return "", false
+			}
+			f := callee(info, call)
+			if f == nil || f.Pkg() == nil || f.Pkg().Path() != "fmt" || !strings.HasPrefix(f.Name(), "Print") {
+				return "", false
+			}
+			return types.ExprString(call.Args[0]), true
+		}
+		a, okA := printsOnly(ifs.Body)
+		b, okB := printsOnly(ifs.Else)
+		if !okA || !okB {
+			return true
+		}
+		num, den := types.ExprString(q.X), types.ExprString(q.Y)
+		okSize = a == num && b == den
+		det = fmt.Sprintf("-size: if %s/%s == 0 prints %s, otherwise prints %s (must be the line count, then the node count)", num, den, a, b)
+		return true
+	})
+	r.Ob("size-printed", p.Pos(fi.Decl.Pos()), okSize, det)
 }
